@@ -167,28 +167,35 @@ Proof. exact mutable_over_immutable. Qed.
 Print Assumptions C13_mutable_over_immutable.
 
 (* ---- confinement ---- *)
-Theorem C13_confined : forall key name, localize key = Some name -> Forall comp_ok name.
+(* localize = localizeKey of local.go (filepath.Localize, and "." rejected) *)
+Theorem C13_confined : forall key name, localize key = Some name -> name <> [] /\ Forall comp_ok name.
 Proof. exact confined. Qed.
 Print Assumptions C13_confined.
 
-Theorem C13_upload_confined : forall dir key name data imm sfx reads f0,
-  localize key = Some name -> name <> [] ->
+(* every key, accepted or not: no exception *)
+Theorem C13_upload_confined : forall dir key data imm sfx reads f0,
   emits (upload dir key data imm sfx reads f0) (confined_call dir).
 Proof. exact upload_confined. Qed.
 Print Assumptions C13_upload_confined.
 
-Theorem C13_confined_dot_refuted :
+(* the code before "fix: local backend must not accept the key \".\"" (upload_prefix,
+   discard_prefix use filepath.Localize alone), and the rejection by the code as it is now *)
+Theorem C13_prefix_confined_dot_refuted :
   let key := s2b "." in
   let tmp := [tmp_name (s2b "store") (s2b "1")] in
-  localize key = Some [] /\
-  nth_error (trace_of (upload store0 key (s2b "x") false (s2b "1") [] 0 st0)) 2 = Some (SCreat tmp 1) /\
+  localize_prefix key = Some [] /\
+  nth_error (trace_of (upload_prefix store0 key (s2b "x") false (s2b "1") [] 0 st0)) 2 = Some (SCreat tmp 1) /\
   ~ below store0 tmp /\
-  (let r := upload store0 key (s2b "x") false (s2b "1") [] 0 (init_fs false) in
+  (let r := upload_prefix store0 key (s2b "x") false (s2b "1") [] 0 (init_fs false) in
    result_of r = UOk /\ read_path (state_of r) store0 = Some (s2b "x")) /\
-  (let r := discard store0 key 0 st0 in
-   result_of r = UOk /\ walk (dirs (state_of r)) store0 = WErr ENOENT).
-Proof. exact confined_dot_refuted. Qed.
-Print Assumptions C13_confined_dot_refuted.
+  (let r := discard_prefix store0 key 0 st0 in
+   result_of r = UOk /\ walk (dirs (state_of r)) store0 = WErr ENOENT) /\
+  localize key = None /\
+  (forall s data imm sfx reads f0,
+     upload store0 key data imm sfx reads f0 s = (UBadKey, s, []) /\
+     discard store0 key f0 s = (UBadKey, s, []) /\ fetch store0 key f0 s = (FBadKey, s, [])).
+Proof. exact prefix_confined_dot_refuted. Qed.
+Print Assumptions C13_prefix_confined_dot_refuted.
 
 (* ---- the hypotheses are satisfiable and stable ---- *)
 Theorem C13_reachable_wf : forall t cap, wf (exec t (init_fs cap)).
